@@ -8,7 +8,8 @@
     [step_self] = the per-action combination; [react_all] = one [react] per occurrence, in order;
     [step_abs] = the abstract per-argument fold; [enc k] = what a Count flag holds after k occurrences. *)
 From ClapModel Require Import Base.Bytes Base.Machine.
-From ClapModel Require Import Parse.Cmd Parse.Build Parse.Valid Parse.Matcher Parse.Errors Parse.Parser ParseProofs.Actions ParseProofs.ActionsLoop ParseProofs.ActionsTokens ParseProofs.ActionsTop ParseProofs.ActionsWide ParseProofs.ActionsWideTop ParseProofs.ActionsGraph ParseProofs.ActionsRequired.
+From ClapModel Require Import Parse.Cmd Parse.Build Parse.Valid Parse.Matcher Parse.Errors Parse.Parser ParseProofs.Actions ParseProofs.ActionsLoop ParseProofs.ActionsTokens ParseProofs.ActionsTop ParseProofs.ActionsWide ParseProofs.ActionsWideTop ParseProofs.ActionsGraph ParseProofs.ActionsRequired ParseProofs.ActionsChain.
+From ClapModel Require ParseProofs.Chain ParseProofs.Globals.
 From Coq Require Import ZArith.
 Open Scope N_scope.
 
@@ -663,3 +664,73 @@ Theorem C07_wide_overridden_flag_default : forall c0 bin toks os1 o os2 m a0 b,
             get_flag_view m (a_id a0) = Some (negb b).
 Proof. exact wide_overridden_flag_default. Qed.
 Print Assumptions C07_wide_overridden_flag_default.
+
+(** ======== round 3: lines that select subcommands - every level of the chain (ParseProofs/ActionsChain.v) ========
+    [cline c toks lv]: [toks] = `pre_0 n_1 pre_1 ... n_k pre_k` for the built command [c]; every inner [pre_i] is an
+    option prefix of its level (C09's class [Chain.prefix_ok]) read by the wide scanner, every [n_i] selects a child
+    ([Chain.sel]), the LAST level is any line of the wide class (positionals, [--], multi-valued options); [lv] lists per
+    level the built command and the scanned occurrences.  [level_form c os args]: per argument of [c], [args] holds the
+    entry the fold of [react] over [os] leaves (source CommandLine), else only env / default entries.  Statements are
+    about [get_matches_with] (before the globals merge), like C09_chain. *)
+Theorem C07_chain_levels : forall c toks lv, cline c toks lv ->
+  forall f st, get_matches_with f c toks ps_new = ROk st ->
+  Forall2 (fun p args => level_form (fst p) (snd p) args) lv (Globals.levels (into_inner (mt st))) /\
+  Globals.chain (into_inner (mt st)) = map (fun p => c_name (fst p)) (tl lv).
+Proof. exact chain_level_forms. Qed.
+Print Assumptions C07_chain_levels.
+
+Theorem C07_cline_levels_ok : forall c toks lv, cline c toks lv ->
+  Forall (fun p => assert_app (fst p) = true /\ Forall (wscanned (fst p)) (snd p)) lv.
+Proof. exact cline_levels_ok. Qed.
+Print Assumptions C07_cline_levels_ok.
+
+(** one level that selects a subcommand: its entries are those of its own prefix, whatever follows *)
+Theorem C07_level_sub : forall c pre F tok n f rest st os,
+  Chain.prefix_ok c pre F -> Chain.sel c tok n -> Chain.lvl_ok c ->
+  no_hyphen_args c = true -> assert_app c = true -> woccurrences c pre = Some os ->
+  get_matches_with (S f) c (pre ++ tok :: rest) ps_new = ROk st ->
+  level_form c os (mt_args (mt st)).
+Proof. exact level_sub_form. Qed.
+Print Assumptions C07_level_sub.
+
+(** the closed forms at a level, any override graph *)
+Theorem C07_level_denote : forall c os args a, assert_app c = true -> Forall (wscanned c) os -> level_form c os args ->
+  In a (c_args c) ->
+  match fold_left (step_abs c (a_id a)) os None with
+  | Some g => exists e, fm_get (a_id a) args = Some e /\ m_raw e = g /\ m_source e = Some SCmdLine
+  | None => forall e, fm_get (a_id a) args = Some e -> m_source e = Some SEnv \/ m_source e = Some SDefault
+  end.
+Proof. exact level_denote. Qed.
+Print Assumptions C07_level_denote.
+
+Theorem C07_level_count : forall c os args a, assert_app c = true -> Forall (wscanned c) os -> level_form c os args ->
+  In a (c_args c) -> count_flag a ->
+  let n := count_occ (a_id a) (live c (a_id a) os) in
+  ((0 < n)%nat -> exists e, fm_get (a_id a) args = Some e /\
+       m_raw e = [[n_to_dec (N.min (N.of_nat n) 255)]] /\ m_source e = Some SCmdLine) /\
+  (n = 0%nat -> forall e, fm_get (a_id a) args = Some e -> m_source e = Some SEnv \/ m_source e = Some SDefault).
+Proof. exact level_count. Qed.
+Print Assumptions C07_level_count.
+
+Theorem C07_level_append : forall c os args a, assert_app c = true -> Forall (wscanned c) os -> level_form c os args ->
+  In a (c_args c) -> a_get_action a = AAppend -> overridden c a (a_id a) = false ->
+  let lv := live c (a_id a) os in
+  ((0 < count_occ (a_id a) lv)%nat ->
+     exists e, fm_get (a_id a) args = Some e /\ m_raw e = occ_groups c (a_id a) lv /\ m_source e = Some SCmdLine) /\
+  (count_occ (a_id a) lv = 0%nat ->
+     forall e, fm_get (a_id a) args = Some e -> m_source e = Some SEnv \/ m_source e = Some SDefault).
+Proof. exact level_append. Qed.
+Print Assumptions C07_level_append.
+
+(** the abstract folds in closed form (used by the level theorems; any override graph) *)
+Theorem C07_count_graph_fold : forall c a os, assert_app c = true -> In a (c_args c) -> count_flag a -> Forall (wscanned c) os ->
+  fold_left (step_abs c (a_id a)) os None = enc (N.of_nat (count_occ (a_id a) (live c (a_id a) os))).
+Proof. exact abs_count_graph. Qed.
+Print Assumptions C07_count_graph_fold.
+
+Theorem C07_append_graph_fold : forall c a os, assert_app c = true -> In a (c_args c) -> a_get_action a = AAppend ->
+  overridden c a (a_id a) = false -> Forall (wscanned c) os ->
+  fold_left (step_abs c (a_id a)) os None =
+  if (0 <? count_occ (a_id a) (live c (a_id a) os))%nat then Some (occ_groups c (a_id a) (live c (a_id a) os)) else None.
+Proof. exact abs_append_graph. Qed.
+Print Assumptions C07_append_graph_fold.
